@@ -904,10 +904,15 @@ func Formals(argSymbols ...string) *LVal {
 	return s
 }
 
-func markTailRec(npop int, fun *LVal, args *LVal) *LVal {
+// markTailRec records a tail call to be resumed npop frames down the stack.
+// loc is the location of the tail-call expression itself: the frame that
+// resumes the call reports argument-binding errors there rather than at the
+// call site that first entered the loop.
+func markTailRec(npop int, fun *LVal, args *LVal, loc *token.Location) *LVal {
 	return &LVal{
-		Type:  LMarkTailRec,
-		Cells: []*LVal{Int(npop), Int(npop), fun, args},
+		Type:   LMarkTailRec,
+		source: loc,
+		Cells:  []*LVal{Int(npop), Int(npop), fun, args},
 	}
 }
 
